@@ -60,8 +60,8 @@ theorem uniquePass_keeps_nil {recs recs1 : List Rec} {taken : List Str} (h : uni
     obtain ⟨rfl, rfl⟩ := h
     exact hx
 
-theorem mkRecs_forall₂ : ∀ (k : Nat) (inp : List (Str × Str)),
-    List.Forall₂ (fun p r => r.id = p.1 ∧ r.name = p.2 ∧ r.orig = none) inp (mkRecs k inp)
+theorem mkRecs_forall₂ : ∀ (k : Nat) (inp : List (Str × Str × Option Str)),
+    List.Forall₂ (fun p r => r.id = p.1 ∧ r.name = p.2.1 ∧ r.orig = none) inp (mkRecs k inp)
   | _, [] => List.Forall₂.nil
   | k, _ :: rest => List.Forall₂.cons ⟨rfl, rfl, rfl⟩ (mkRecs_forall₂ (k + 1) rest)
 
@@ -75,9 +75,10 @@ theorem checkNames_ok {recs out : List Rec} (h : checkNames recs = .ok out) : ou
     exact List.any_eq_true.mpr ⟨r, hr, by simp [hid]⟩
 
 /-- everything a successful run of the identifier handling guarantees, in one place -/
-structure Post (al : Bool) (inp : List (Str × Str)) (recs : List Rec) : Prop where
+structure Post (al : Bool) (inp : List (Str × Str × Option Str)) (recs : List Rec) : Prop where
   distinct : (recs.map (·.id)).Nodup
-  each : ∀ r ∈ recs, Clean r.id ∧ Clean r.name ∧ (al = false → r.id.length ≤ 16 ∧ r.name.length ≤ 16) ∧ r.id ≠ []
+  each : ∀ r ∈ recs, Clean r.id ∧ Clean r.name ∧ (al = false → r.id.length ≤ 16 ∧ r.name.length ≤ 16) ∧ r.id ≠ [] ∧
+    ∀ a, r.acc = some a → a.length ≤ 16
   remembers : List.Forall₂ (fun p r => r.orig = if r.id = p.1 then none else some p.1) inp recs
   inputsNamed : ∀ p ∈ inp, p.1 ≠ []
 
@@ -143,7 +144,7 @@ theorem remembers_pointwise {al : Bool} {taken : List Str} {pid : Str} {r0 r1 r2
       · exact fun h => hfresh (h ▸ hsub _ (h0.1 ▸ hmem))
     simp [this]
 
-theorem preProcessIds_post {al : Bool} {inp : List (Str × Str)} {recs : List Rec}
+theorem preProcessIds_post {al : Bool} {inp : List (Str × Str × Option Str)} {recs : List Rec}
     (h : preProcessIds al inp = .ok recs) : Post al inp recs := by
   unfold preProcessIds at h
   split at h
@@ -167,7 +168,7 @@ theorem preProcessIds_post {al : Bool} {inp : List (Str × Str)} {recs : List Re
       refine ⟨f1.1, ?_, ?_, hin⟩
       · intro r hr
         obtain ⟨a, _, t, t', _, p⟩ := forall₂_mem_right f2 r hr
-        exact ⟨p.cleanId, p.cleanName, fun hal => ⟨p.shortId hal, p.shortName hal⟩, hne r hr⟩
+        exact ⟨p.cleanId, p.cleanName, fun hal => ⟨p.shortId hal, p.shortName hal⟩, hne r hr, p.acc⟩
       · -- compose the three pointwise relations
         have h123 := forall₂_comp (forall₂_comp hm u3) f2
         refine forall₂_imp_mem h123 ?_
@@ -176,7 +177,7 @@ theorem preProcessIds_post {al : Bool} {inp : List (Str × Str)} {recs : List Re
 
 /-- the only ways the identifier handling rejects an input: no 16-character id left
     (RuntimeError) or a record without id; never the assertion, never an endless loop -/
-theorem preProcessIds_err {al : Bool} {inp : List (Str × Str)} {e : Err}
+theorem preProcessIds_err {al : Bool} {inp : List (Str × Str × Option Str)} {e : Err}
     (h : preProcessIds al inp = .error e) : e = .runtime ∨ e = .noName := by
   unfold preProcessIds at h
   split at h
@@ -232,7 +233,7 @@ theorem fixAll_long_ok : ∀ {rs : List Rec} {taken : List Str} {e : Err}, fixAl
         exact fixAll_long_ok h2
       · simp at h
 
-theorem preProcessIds_err_long {inp : List (Str × Str)} {e : Err}
+theorem preProcessIds_err_long {inp : List (Str × Str × Option Str)} {e : Err}
     (h : preProcessIds true inp = .error e) : e = .noName := by
   rcases preProcessIds_err h with rfl | rfl
   · unfold preProcessIds at h
@@ -281,7 +282,7 @@ theorem forall₂_map_left {α β γ} {R : β → γ → Prop} {f : α → β} :
   | _, _, .nil => .nil
   | _, _, .cons h t => .cons h (forall₂_map_left t)
 
-theorem post_recordsOk {al : Bool} {inp : List (Str × Str)} {recs : List Rec} (p : Post al inp recs) :
+theorem post_recordsOk {al : Bool} {inp : List (Str × Str × Option Str)} {recs : List Rec} (p : Post al inp recs) :
     IdSpec.recordsOk al (inp.map (·.1)) (recs.map toOut) = true := by
   unfold IdSpec.recordsOk
   simp only [Bool.and_eq_true, List.map_map]
@@ -299,5 +300,56 @@ theorem post_recordsOk {al : Bool} {inp : List (Str × Str)} {recs : List Rec} (
       have := (p.each r hr).2.2.1 rfl
       simp [this.1, this.2]
   · exact remembersAll_of_forall₂ (forall₂_map_left p.remembers)
+
+theorem uniqueOk_of_ok {pre : Str} {taken : List Str} {start : Nat} {maxLength : Int} {n : Str} {k : Nat}
+    (h : generateUniqueId pre taken start maxLength = .ok (n, k)) : IdSpec.uniqueOk taken maxLength n = true := by
+  obtain ⟨_, h2, h3⟩ := generateUniqueId_ok h
+  unfold IdSpec.uniqueOk
+  simp only [Bool.and_eq_true, Bool.not_eq_true', Bool.or_eq_true, decide_eq_true_eq]
+  refine ⟨by simpa using h2, ?_⟩
+  by_cases hm : maxLength ≤ 0
+  · exact Or.inl hm
+  · exact Or.inr (h3 (by omega))
+
+theorem falsy_eq (o : Option Str) : IdSpec.falsy o = !origSet o := by
+  cases o with
+  | none => rfl
+  | some s => cases s <;> rfl
+
+theorem fixOk_of_post {al : Bool} {taken : List Str} {r r' : Rec} {t' : List Str} (p : FixPost al taken r r' t') :
+    IdSpec.fixOk al taken r.id r.orig (toOut r') t' = true := by
+  unfold IdSpec.fixOk toOut
+  simp only [Bool.and_eq_true]
+  refine ⟨⟨⟨⟨⟨⟨⟨?_, ?_⟩, ?_⟩, ?_⟩, ?_⟩, ?_⟩, ?_⟩, ?_⟩
+  · exact (clean_iff_fileSafe _).mp p.cleanId
+  · exact (clean_iff_fileSafe _).mp p.cleanName
+  · unfold IdSpec.shortEnough
+    cases al with
+    | true => rfl
+    | false => simpa using p.shortId rfl
+  · unfold IdSpec.shortEnough
+    cases al with
+    | true => rfl
+    | false => simpa using p.shortName rfl
+  · rcases p.fresh with h | h
+    · simp [h]
+    · simp [h]
+  · simp only [List.all_eq_true]
+    intro y hy
+    simpa using p.sub y hy
+  · by_cases hm : r.id ∈ taken
+    · have := p.mem hm
+      simp [this]
+    · simp [hm]
+  · rw [p.orig, falsy_eq]
+    unfold fixOrig
+    simp only [beq_iff_eq]
+    by_cases h1 : origSet r.orig = true
+    · simp [h1]
+    · have h1' : origSet r.orig = false := by simpa using h1
+      by_cases h2 : r'.id = r.id
+      · simp [h1', h2]
+      · have h3 : r.id ≠ r'.id := fun h => h2 h.symm
+        simp [h1', h2, h3]
 
 end ASV.Ids
